@@ -374,7 +374,7 @@ class VerifySignatureApi(Family):
         for ht in (0x01, 0x83, 0x02):
             for nin in (1, 2, 3):
                 for idx in range(nin):
-                    for fault in ('none', 'wrong_prev_hash', 'prev_n_out_of_range', 'idx_out_of_range', 'negative_idx', 'funding_tx_has_witness', 'prev_hash_is_wtxid'):
+                    for fault in ('none', 'wrong_prev_hash', 'prev_n_out_of_range', 'idx_out_of_range', 'negative_idx', 'funding_tx_has_witness', 'prev_hash_is_wtxid', 'spend_third_output_nout1', 'spend_third_output_nout0'):
                         yield (ht, nin, idx, fault)
 
     def check(self, case):
@@ -393,6 +393,13 @@ class VerifySignatureApi(Family):
         m = C.default_tx(nin, 2)
         m['vin'][idx]['hash'] = W.txid(C.model_of_tx(prev))
         m['vin'][idx]['n'] = 1
+        if fault.startswith('spend_third_output'):
+            # the funding transaction has three outputs and the third one is spent by a transaction with fewer outputs than
+            # that index: the range of prevout.n is that of the *funding* transaction
+            prev = CTransaction([CTxIn(COutPoint(b'\x05' * 32, 0))], [CTxOut(1000, CScript(b'\x51')), CTxOut(3000, CScript(b'\x52')), CTxOut(2000, CScript(spk))])
+            m = C.default_tx(nin, 1 if fault.endswith('nout1') else 0)
+            m['vin'][idx]['hash'] = W.txid(C.model_of_tx(prev))
+            m['vin'][idx]['n'] = 2
         tx = C.lib_tx(m)
         digest, sigs, const1, owned = lib_sign(tx, subscript, idx, ht, signers, 0, False)
         m['vin'][idx]['script'] = mk_sig(sigs)
@@ -416,7 +423,7 @@ class VerifySignatureApi(Family):
         except Exception as e:  # noqa
             raise Viol('VerifySignature raised %s (%s)' % (type(e).__name__, fault), 'ValidationError or success', str(e))
         # changing prevout hash/n of the verified input also changes the digest unless it fails earlier: all faults fail
-        want = 'ok' if fault in ('none', 'funding_tx_has_witness') else 'fail'
+        want = 'ok' if fault in ('none', 'funding_tx_has_witness', 'spend_third_output_nout1', 'spend_third_output_nout0') else 'fail'
         if got != want:
             raise Viol('VerifySignature with fault %s (hashtype %#x, %d inputs, idx %d)' % (fault, ht, nin, idx), want, got)
         return fault, True
